@@ -215,7 +215,7 @@ func body(fine bool) func() {
 
 func init() {
 	reg.Register(&reg.Scenario{Property: "C14", Name: "three-writers", Body: body(false), Quick: 1, Thorough: 2,
-		Doc: "client1: set 5, get || client2: one of {set 7, set -1, three wrongly-typed sets, set by id}, get || service: update 9, update -3 || the middle one of three subscribers leaves; porcupine against a register",
+		Doc:      "client1: set 5, get || client2: one of {set 7, set -1, three wrongly-typed sets, set by id}, get || service: update 9, update -3 || the middle one of three subscribers leaves; porcupine against a register",
 		MustFlag: []string{"validator-rejected", "writes-reordered"}})
 	reg.Register(&reg.Scenario{Property: "C14", Name: "three-writers-statement-level", Body: body(true), Quick: -1, Thorough: 1,
 		Doc: "same with bus/object.go interleaved at statement level"})
